@@ -6,6 +6,7 @@ import (
 	"fmt"
 	"net"
 	"runtime/debug"
+	"strings"
 	"sync"
 	"testing"
 	"time"
@@ -466,5 +467,83 @@ func TestCarrierEndsInsideAFrame(t *testing.T) {
 				t.Fatalf("%s", failure)
 			}
 		}
+	}
+}
+
+// TestManySessions: "after a physical session has ended in any manner ... no goroutine, socket or processor use remains
+// that grows with the number of past" sessions either. One server per carrier serves a sequence of client processes'
+// worth of sessions (each: one logical connection used and closed, then the client shut down, i.e. the peer ends the
+// session first and the server closes second); the footprint after 30 sessions may not exceed the one after 5.
+func TestManySessions(t *testing.T) {
+	carriers := []string{vlib.CarTCP, vlib.CarHTTP, vlib.CarTCPTLS, vlib.CarHTTPS, vlib.CarUDP}
+	if !vlib.Thorough() {
+		carriers = carriers[:4]
+	}
+	for _, car := range carriers {
+		func() {
+			defer debug.SetGCPercent(debug.SetGCPercent(-1))
+			tgt := vlib.NewTarget("data", vlib.EchoHandler)
+			defer tgt.Close()
+			cfg := vlib.PairConfig{Carrier: car, ClientInsecure: true,
+				Channels:  []vlib.ChannelSpec{{Name: "data", Target: tgt.URL()}},
+				Listeners: []vlib.ListenerSpec{{Channel: "data"}}}
+			if strings.Contains(car, "tls") || car == vlib.CarHTTPS {
+				cfg.ServerCert = &vlib.GetPKI().ServerGood
+			}
+			p, err := vlib.StartPair(cfg)
+			if err != nil {
+				vlib.Rec.Inconclusive("bind")
+				return
+			}
+			defer p.Close()
+			session := func(i int) string {
+				ec, err := p.AddClient("data")
+				if err != nil {
+					return "extra client: " + err.Error()
+				}
+				defer ec.Close()
+				c, err := ec.Dial("data")
+				if err != nil {
+					return "dial: " + err.Error()
+				}
+				msg := vlib.PRF(uint64(i), 0, 200)
+				c.SetDeadline(time.Now().Add(15 * time.Second))
+				c.Write(msg)
+				got, rerr := vlib.ReadFullTimeout(c, len(msg), 15*time.Second)
+				c.Close()
+				if vlib.FirstDiff(got, msg) != -1 {
+					return fmt.Sprintf("echo: %d of %d bytes (%v)", len(got), len(msg), rerr)
+				}
+				return ""
+			}
+			run := func(from, to int) string {
+				for i := from; i < to; i++ {
+					if m := session(i); m != "" {
+						return fmt.Sprintf("session %d: %s", i, m)
+					}
+				}
+				return ""
+			}
+			h := map[string]interface{}{"carrier": car, "sessions": 30, "each": "client connects, one logical connection echoes 200 bytes and is closed, client shuts down"}
+			fail := func(msg string) {
+				vlib.Rec.Violation(map[string]interface{}{"property": "C14", "many_sessions": h, "problem": msg, "goroutines": vlib.GoroutineSummary(12), "descriptors": vlib.FDSummary(), "goroutine_dump": vlib.DumpGoroutines("c14-sessions")})
+				t.Errorf("C14 many sessions %v: %s\ngoroutines: %v\ndescriptors: %v", h, msg, vlib.GoroutineSummary(12), vlib.FDSummary())
+			}
+			if m := run(0, 5); m != "" {
+				fail(m)
+				return
+			}
+			m1 := vlib.Quiesce(8 * time.Second)
+			if m := run(5, 30); m != "" {
+				fail(m)
+				return
+			}
+			m2 := vlib.QuiesceBelow(vlib.Footprint{Goroutines: m1.Goroutines + slack, FDs: m1.FDs + slack}, 10*time.Second)
+			h["after_5_sessions"], h["after_30_sessions"] = m1.String(), m2.String()
+			vlib.Rec.Case(fmt.Sprintf("many-sessions %s", car), true, []string{"many-sessions", "carrier:" + car}, func() interface{} { return h })
+			if m2.Goroutines > m1.Goroutines+slack || m2.FDs > m1.FDs+slack {
+				fail(fmt.Sprintf("the footprint grows with the number of past sessions: after 5 sessions %v, after 30 sessions %v", m1, m2))
+			}
+		}()
 	}
 }
